@@ -32,8 +32,9 @@ func init() {
 	core.Register(&core.Prop{
 		ID: "C04",
 		Modes: []core.ModeSpec{
-			{Name: "faults", Weight: 7},
-			{Name: "control", Weight: 1},
+			{Name: "faults", Weight: 349},
+			{Name: "control", Weight: 50},
+			{Name: "large", Weight: 1},
 		},
 		Run:  run,
 		Enum: enum,
@@ -225,8 +226,13 @@ func allocBytes() uint64 {
 // (2) When more than 16 MiB were allocated, what the decoded value RETAINS is
 // measured exactly (two forced collections around a second decode) and must
 // stay under 8 MiB + 1 KiB per input byte.
-// MaxAlloc is the largest allocation growth seen during one decode in this process.
-var MaxAlloc uint64
+// MaxAlloc is the largest allocation growth seen during one decode in this process;
+// MaxStepsPerByte / MaxSteps the largest decode cost (inputs of 1000 bytes and more).
+var (
+	MaxAlloc        uint64
+	MaxStepsPerByte int
+	MaxSteps        int64
+)
 
 const (
 	allocBound   = 256 << 20
@@ -236,6 +242,19 @@ const (
 	retainedBound    = 8 << 20
 	retainedPerByte  = 1 << 10
 )
+
+// "time proportional to the input", in simulated time: a decode may execute at
+// most 2 × (timeConst + timePerByte × len(input)) library statements. Measured
+// on the unchanged tree over 640 000 clean and damaged blobs: at most 3
+// statements per input byte and 26 000 in total, so the bound is some 50 times
+// above anything linear; a quadratic list loader crosses it at a few hundred
+// members.
+const (
+	timeConst   = 200000
+	timePerByte = 150
+)
+
+func timeBound(n int) int64 { return timeConst + timePerByte*int64(n) }
 
 var keepAlive any
 
@@ -249,10 +268,8 @@ func retainedBy(e *entry, input []byte) (kept uint64) {
 	var m0, m1 runtime.MemStats
 	runtime.GC()
 	runtime.ReadMemStats(&m0)
-	hook := simrt.Limit
-	simrt.Limit = 0
+	simrt.Disarm()
 	keepAlive, _ = e.decode(input)
-	simrt.Limit = hook
 	runtime.GC()
 	runtime.ReadMemStats(&m1)
 	if m1.HeapAlloc > m0.HeapAlloc {
@@ -277,7 +294,12 @@ func guarded(c *core.Ctx, e *entry, stage string, input []byte, fn func()) (ok b
 			if simrt.HangHit {
 				// (the budget panic may have been swallowed or re-wrapped by a dependency on its way up)
 				simrt.HangHit = false
-				c.Fail("hang", "C04/hang/"+stage, "%s of %d bytes at %s exhausted its step budget (simulated time) in %s: a loop or recursion that does not terminate in proportion to the input", stage, len(input), e.name, siteName(simrt.HangSite))
+				if stage == "decode" {
+					holder := simrt.LoopHolder()
+					c.Fail("time", "C04/time/decode/"+holder, "decode of %d bytes at %s executed more than %d library statements (bound: %d + %d per input byte; decodes of undamaged and damaged blobs normally take at most 3 per byte): a loop, an unbounded recursion or a superlinear algorithm in %s (last statement %s)", len(input), e.name, 2*timeBound(len(input)), 2*timeConst, 2*timePerByte, holder, siteName(simrt.HangSite))
+				} else {
+					c.Fail("hang", "C04/hang/"+stage, "%s of the value decoded from %d bytes at %s exhausted its step budget (simulated time) in %s: it does not terminate", stage, len(input), e.name, siteName(simrt.HangSite))
+				}
 			} else {
 				frame, kind := libFrame(r)
 				c.Fail("panic", fmt.Sprintf("C04/panic/%s/%s/%s", stage, frame, kind), "%s at entry point %s panicked on %d bytes %q: %v", stage, e.name, len(input), clip(input, 80), r)
@@ -302,16 +324,24 @@ func readAndExercise(c *core.Ctx, e *entry, input []byte, cleanSteps int64) (val
 	simrt.Record(e.name, input)
 	// "no hang", in simulated time: orders of magnitude above anything linear or
 	// quadratic in these inputs, so that only a genuine loop trips it
-	budget := 1000*cleanSteps + 1000000 + 2000*int64(len(input))
+	_ = cleanSteps
 	start := simrt.Steps
 	a0 := allocBytes()
 	ok := guarded(c, e, "decode", input, func() {
-		simrt.Limit = simrt.Steps + budget
+		simrt.ArmLadder(timeBound(len(input)))
 		val, err = e.decode(input)
-		simrt.Limit = 0
+		simrt.Disarm()
 	})
-	simrt.Limit = 0
+	simrt.Disarm()
 	steps = simrt.Steps - start
+	if len(input) >= 1000 {
+		if spb := int(steps / int64(len(input))); spb > MaxStepsPerByte {
+			MaxStepsPerByte = spb
+		}
+	}
+	if steps > MaxSteps {
+		MaxSteps = steps
+	}
 	if !ok {
 		return nil, nil, steps
 	}
@@ -388,15 +418,17 @@ var readOnlyNiladic = []string{"MarshalJSON", "MarshalText", "MarshalBinary", "G
 // followUps: any value a decoder returns can be inspected, compared,
 // re-encoded in both codecs and formatted without panicking.
 func followUps(c *core.Ctx, e *entry, input []byte, val any) {
-	budget := int64(20000000)
+	// follow-ups only have to terminate (the property bounds the decoders' time, not theirs):
+	// a generous budget that also lets comparisons that are quadratic in a list's length finish
+	budget := int64(20000000) + 5000*int64(len(input))
 	run := func(stage string, fn func()) bool {
 		return guarded(c, e, stage, input, func() {
 			simrt.Limit = simrt.Steps + budget
 			fn()
-			simrt.Limit = 0
+			simrt.Disarm()
 		})
 	}
-	defer func() { simrt.Limit = 0 }()
+	defer simrt.Disarm()
 	if it, ok := val.(ap.Item); ok {
 		if !run("followup:IsNil", func() { _ = ap.IsNil(it) }) {
 			return
@@ -427,6 +459,36 @@ func followUps(c *core.Ctx, e *entry, input []byte, val any) {
 		}
 		if !checkFormatted(c, e, input, formatted) {
 			return
+		}
+	}
+	if it, ok := val.(ap.Item); ok && (c.Tier == "thorough" || c.Replay || core.Hash64(input)%4 == 0) {
+		// compared: with what the same value looks like after a trip through either codec (a cached
+		// copy against a fresh one) – both argument orders
+		var viaGob, viaJSON ap.Item
+		if !run("followup:re-decode", func() {
+			if b, err := ap.GobEncode(it); err == nil && len(b) > 0 {
+				viaGob, _ = ap.GobDecode(b)
+			}
+			if b, err := ap.MarshalJSON(it); err == nil && len(b) > 0 {
+				viaJSON, _ = ap.UnmarshalJSON(b)
+			}
+		}) {
+			return
+		}
+		for _, tw := range []struct {
+			name string
+			v    ap.Item
+		}{{"gob-twin", viaGob}, {"json-twin", viaJSON}} {
+			if tw.v == nil {
+				continue
+			}
+			twin := tw.v
+			if !run("followup:ItemsEqual(x,"+tw.name+")", func() { _ = ap.ItemsEqual(it, twin) }) {
+				return
+			}
+			if !run("followup:ItemsEqual("+tw.name+",x)", func() { _ = ap.ItemsEqual(twin, it) }) {
+				return
+			}
 		}
 	}
 	// quick tier: the package-level follow-ups above already reach the value's own encoders, so
@@ -468,9 +530,19 @@ func run(c *core.Ctx) {
 	e := entries[t.Draw(len(entries))]
 	var msg []byte
 	var desc string
+	if c.Mode == "large" {
+		runLarge(c, g)
+		return
+	}
 	if e.codec == "json" && len(mockList) > 0 && t.Bool(1, 4) {
 		m := mockList[t.Draw(len(mockList))]
 		msg, desc = m.data, "mock "+m.name
+	} else if e.codec == "json" && t.Bool(1, 4) {
+		// a document as a foreign server writes it (independent writer)
+		msg, desc = gen.PeerDoc(t), "peer document"
+		if t.Bool(1, 2) {
+			e = byName["pkg.UnmarshalJSON"]
+		}
 	} else {
 		msg, desc = write(e, g, t)
 	}
@@ -537,6 +609,63 @@ func run(c *core.Ctx) {
 	finish(c, target, strings.Join(progStr, "+"), nil)
 }
 
+// runLarge: a collection (or page) with hundreds to thousands of members, as a
+// busy actor's outbox or followers list has – clean, or with one fault. The
+// property bounds a decoder's time by the size of its input; only a list long
+// enough tells a linear loader from a quadratic one.
+func runLarge(c *core.Ctx, g *gen.G) {
+	t := c.Tape
+	n := []int{200, 400, 800, 1600}[t.Draw(4)]
+	members := make(ap.ItemCollection, 0, n)
+	for i := 0; i < n; i++ {
+		if t.Bool(1, 8) {
+			members = append(members, &ap.Object{ID: g.IRI(), Type: ap.NoteType})
+		} else {
+			members = append(members, g.IRI())
+		}
+	}
+	var v ap.Item
+	var entryNames []string
+	switch t.Draw(4) {
+	case 3:
+		// a bare list (a top-level JSON array)
+		v = members
+		entryNames = []string{"pkg.UnmarshalJSON", "pkg.GobDecode"}
+	case 0:
+		v = &ap.OrderedCollection{ID: g.IRI(), Type: ap.OrderedCollectionType, TotalItems: uint(n), OrderedItems: members}
+		entryNames = []string{"pkg.UnmarshalJSON", "OrderedCollection.UnmarshalJSON", "pkg.GobDecode", "OrderedCollection.GobDecode"}
+	case 1:
+		v = &ap.CollectionPage{ID: g.IRI(), Type: ap.CollectionPageType, TotalItems: uint(n), Items: members}
+		entryNames = []string{"pkg.UnmarshalJSON", "CollectionPage.UnmarshalJSON", "pkg.GobDecode", "CollectionPage.UnmarshalBinary"}
+	default:
+		v = &ap.Object{ID: g.IRI(), Type: ap.NoteType, To: members}
+		entryNames = []string{"pkg.UnmarshalJSON", "Object.UnmarshalJSON", "pkg.GobDecode", "Object.GobDecode"}
+	}
+	e := byName[entryNames[t.Draw(len(entryNames))]]
+	if e == nil {
+		return
+	}
+	var msg []byte
+	if e.codec == "gob" {
+		msg, _ = ap.GobEncode(v)
+		msg = gobcanon.Canon(msg)
+	} else {
+		msg, _ = ap.MarshalJSON(v)
+	}
+	what := "clean"
+	if t.Bool(1, 2) {
+		prog := wire.DrawProgram(t, len(msg), 1, []string{wire.Truncate, wire.BitFlip, wire.DropChunk, wire.DupChunk, wire.ZeroChunk})
+		msg = wire.Run(msg, prog, nil)
+		what = prog[0].String()
+		c.Fault(prog[0].Kind)
+	}
+	c.Probe("large_list_decoded")
+	c.Logf("large: %T with %d members, %d bytes, %s; reader: %s", v, n, len(msg), what, e.name)
+	readAndExercise(c, e, msg, 0)
+	c.Rec.Nontriv = true
+	finish(c, e, fmt.Sprintf("large/%d/%s", n, what), nil)
+}
+
 func finish(c *core.Ctx, e *entry, what string, _ any) {
 	c.Rec.Ops = 1
 	if c.Rec.Probes == nil {
@@ -544,6 +673,8 @@ func finish(c *core.Ctx, e *entry, what string, _ any) {
 	}
 	// (a gauge, merged by maximum in the parent: key prefix "max_")
 	c.Rec.Probes["max_decode_alloc_kib"] = int(MaxAlloc >> 10)
+	c.Rec.Probes["max_decode_steps_per_input_byte"] = MaxStepsPerByte
+	c.Rec.Probes["max_decode_steps"] = int(MaxSteps)
 	c.Rec.CaseHash = core.HashStr(fmt.Sprintf("%d|%s|%s", c.Rec.Seed, e.name, what))
 }
 
